@@ -60,9 +60,9 @@ CHECKS = {
   "Model-free. Not covered: histories deeper than the bound below each seed.",
   "DESIGN.md section 4 C15"),
  "C16": ("model_checking",
-  "differential transition oracle on every Reweight transition of an explicit-state BFS: content after = content before x w",
-  "Every state of depth below the bound of store worlds (all kinds; with reads, copies and reweights of both slots) and sketch worlds (both variants) receives Reweight(w), w in {2^-10, 1/2, 1, 2, 3}; the content after must be exactly the content before with every weight scaled (stores: all observers; sketches: bins, zero weight, count, exact sum scaled, exact extremes unchanged).",
-  "Model-free (the expectation is the real content before the call, scaled). Not covered: non-dyadic weights or factors.",
+  "differential transition oracle on every Reweight transition of an explicit-state BFS: content after = content before x w; exhaustive addition sequences compared with a twin fed scaled weights",
+  "Every state of depth below the bound of store worlds (all kinds; with reads, copies and reweights of both slots) and sketch worlds (both variants) receives Reweight(w), w in {2^-10, 1/2, 1, 2, 3}; the content after must be exactly the content before with every weight scaled (stores: all observers; sketches: bins, zero weight, count, exact sum scaled, exact extremes unchanged). In addition every sequence of <= 3 (4) additions with non-dyadic weights, on each store kind and through a sketch, followed by Reweight(w) is compared to the last bit with a twin object that received the weights multiplied by the dyadic w.",
+  "Model-free (the expectation is the real content before the call, scaled; or a twin object running the same code). Not covered: non-dyadic factors; non-dyadic weights beyond addition-only sequences.",
   "DESIGN.md section 4 C16"),
  "C03": ("exploration",
   "exhaustive enumeration of the bin-edge lattice of every mapping (every bin +-ulps, exact Index steps by bisection, binades, range ends, T-bit lattice)",
